@@ -12,7 +12,7 @@ import z3
 
 from . import sym
 from .sym import SInt, SBool, Unsupported, is_sym, is_intlike, OPAQUE, to_bv, mk_int, BitLength
-from .values import SObj, SBytes, mk_bytes, BoundMethod, SuperProxy, Closure, GenObj, class_of, contains_sym
+from .values import SObj, SBytes, mk_bytes, BoundMethod, SuperProxy, Closure, GenObj, class_of, contains_sym, SymSet
 from .spec import And, Or, Not, ite, AnyOf
 
 
@@ -594,6 +594,24 @@ class AssocDict:
         raise Unsupported("len of a dict with symbolic keys")
 
 
+def symset_attr(interp, st, name):
+    if name == "add":
+        return lambda e: st.add_if(True if interp.guard() is None else interp.guard(), e)
+    if name == "discard":
+        return lambda e: st.discard_if(True if interp.guard() is None else interp.guard(), e)
+    if name == "copy":
+        return st.copy
+    if name in ("union", "__or__"):
+        return lambda o: st | o
+    if name in ("difference", "__sub__"):
+        return lambda o: st - o
+    if name in ("intersection", "__and__"):
+        return lambda o: st & o
+    if name == "symmetric_difference":
+        return lambda o: st ^ o
+    raise Unsupported("set.%s on a set with symbolic membership" % name)
+
+
 def assoc_attr(interp, d, name):
     if name == "get":
         return d.get
@@ -620,6 +638,8 @@ def b_isinstance(interp, v, t):
         raise Unsupported("isinstance on an unspecified value")
     if isinstance(v, SText):
         return issubclass(str, t)
+    if isinstance(v, SymSet):
+        return issubclass(set, t)
     if isinstance(v, SBytes):
         return issubclass(bytes, t)
     if isinstance(v, BitLength):
@@ -653,6 +673,8 @@ def b_len(interp, v):
         return len(v.items)
     if isinstance(v, SText):
         return len(v.codes)
+    if isinstance(v, SymSet):
+        return v.count()
     if isinstance(v, SRange):
         return ite(v.stop > v.start, v.stop - v.start, 0)
     if is_sym(v) or v is None or isinstance(v, (GenObj, Closure)):
